@@ -67,6 +67,12 @@ func CalculateFlowRateForCoin(coin sdk.Coin, period StreamPeriod, duration uint6
 	return totalDuration, flowRate, flowRate.TruncateInt64()
 }
 
+// AddSeconds returns t plus a whole number of seconds. t.Add(time.Second * time.Duration(seconds))
+// overflows time.Duration beyond roughly 292 years (9.2e9 seconds) and lands in the past.
+func AddSeconds(t time.Time, seconds int64) time.Time {
+	return time.Unix(t.Unix()+seconds, int64(t.Nanosecond())).UTC()
+}
+
 func CalculateDuration(deposit sdk.Coin, flowRate int64) int64 {
 	// no point if flowRate is <= 0
 	if flowRate <= 0 {
